@@ -72,8 +72,9 @@ theorem strict_step_touches_client_only_as_source_does (w : Strict) (op : Op) (h
 WriteHeader) to the tee of underlying writer and buffer, Flush passes through the http.Flusher assertion -/
 theorem warn_methods_as_modelled :
     exportedOf wrapperMethods "warnResponseWrapper" = ["Write", "WriteHeader", "Header", "Flush"] ∧
-    writerCalls wrapperMethods "warnResponseWrapper" 3 "Write" = ["WriteHeader", "tee.Write"] ∧
-    writerCalls wrapperMethods "warnResponseWrapper" 3 "WriteHeader" = ["WriteHeader"] ∧
+    -- WriteHeader forwards in two places: the informational branch and the recording branch
+    writerCalls wrapperMethods "warnResponseWrapper" 3 "Write" = ["WriteHeader", "WriteHeader", "tee.Write"] ∧
+    writerCalls wrapperMethods "warnResponseWrapper" 3 "WriteHeader" = ["WriteHeader", "WriteHeader"] ∧
     writerCalls wrapperMethods "warnResponseWrapper" 3 "Header" = ["Header"] ∧
     writerCalls wrapperMethods "warnResponseWrapper" 3 "Flush" = ["Flush"] ∧
     writerCalls wrapperMethods "warnResponseWrapper" 3 "flushBodyContents" = [] ∧
